@@ -1,4 +1,202 @@
-import WnVerif.Model.Api
+/-
+C01 — the query API reports exactly the content of every added lexicon.
+
+The deciding tie for this property is the full-observation correspondence (see DESIGN.md).  The
+theorems below are the part of the refinement "decode (add db doc) = doc" that is proved so far:
+the lexicon row and the entry rows written by `_insert_lexicon` / `_insert_entries`, and what
+`find_entries` decodes from them.  The remaining steps of `addLexicon` (forms, senses, …) are
+covered by correspondence only (`C01_refinement_partial` names the missing part).
+-/
+import WnVerif.Model.Add
+import WnVerif.Model.Query
+import WnVerif.Lemmas.ForIn
+import WnVerif.Lemmas.DbAux
 namespace WnVerif.Props.C01
-theorem placeholder_true : True := trivial
+open WnVerif WnVerif.Db WnVerif.Doc
+
+/-! ### rowid allocation -/
+
+theorem foldr_max_ge (l : List Nat) : ∀ x ∈ l, x ≤ l.foldr max 0 := by
+  induction l with
+  | nil => intro x hx; simp at hx
+  | cons a t ih =>
+    intro x hx
+    simp only [List.foldr_cons]
+    rcases List.mem_cons.mp hx with rfl | hx
+    · exact Nat.le_max_left _ _
+    · exact Nat.le_trans (ih x hx) (Nat.le_max_right _ _)
+
+/-- a newly allocated rowid is not in use -/
+theorem nextId_fresh (ids : List Nat) : nextId ids ∉ ids := by
+  intro h
+  have := foldr_max_ge ids _ h
+  unfold nextId at this
+  omega
+
+/-! ### `_insert_lexicon` -/
+
+/-- the lexicon row carries exactly the document's attributes and metadata, gets a fresh rowid,
+and the rows of the lexicons already installed are not touched -/
+theorem C01_lexicon_row (db db' : Db) (l : Lexicon) (lexid extid : Nat)
+    (h : insertLexicon db l = .ok (db', lexid, extid)) :
+    db'.lexicons = db.lexicons ++ [⟨lexid, l.id, l.label, l.language, l.email, l.license, l.version, l.url, l.citation, l.logo, l.md⟩] ∧ lexid ∉ db.lexicons.map (·.rowid) ∧ lexiconRow db l.id l.version = none := by
+  unfold insertLexicon at h
+  simp only [bind, Except.bind, pure, Except.pure] at h
+  split at h
+  · simp [throw, throwThe, MonadExcept.throw] at h
+  · rename_i hnot
+    have hnone : lexiconRow db l.id l.version = none := by
+      cases hx : lexiconRow db l.id l.version with
+      | none => rfl
+      | some _ => simp [hx] at hnot
+    split at h
+    · -- extension
+      split at h
+      · simp at h
+      · simp only [Except.ok.injEq, Prod.mk.injEq] at h
+        obtain ⟨h1, h2, _⟩ := h
+        subst h1 h2
+        exact ⟨rfl, nextId_fresh _, hnone⟩
+    · simp only [Except.ok.injEq, Prod.mk.injEq] at h
+      obtain ⟨h1, h2, _⟩ := h
+      subst h1 h2
+      exact ⟨rfl, nextId_fresh _, hnone⟩
+
+/-- declared dependencies are recorded with id, version and url, linked to the provider when it
+is installed -/
+theorem C01_dependencies_recorded (db db' : Db) (l : Lexicon) (lexid extid : Nat)
+    (h : insertLexicon db l = .ok (db', lexid, extid)) (d : Dep) (hd : d ∈ l.requires) :
+    ∃ r ∈ db'.deps, r.dependent = lexid ∧ r.pid = d.id ∧ r.pver = d.version ∧ r.purl = d.url := by
+  unfold insertLexicon at h
+  simp only [bind, Except.bind, pure, Except.pure] at h
+  split at h
+  · simp [throw, throwThe, MonadExcept.throw] at h
+  · split at h
+    · split at h
+      · simp at h
+      · simp only [Except.ok.injEq, Prod.mk.injEq] at h
+        obtain ⟨h1, h2, _⟩ := h
+        subst h1 h2
+        exact ⟨_, List.mem_append_right _ (List.mem_map.mpr ⟨d, hd, rfl⟩), rfl, rfl, rfl, rfl⟩
+    · simp only [Except.ok.injEq, Prod.mk.injEq] at h
+      obtain ⟨h1, h2, _⟩ := h
+      subst h1 h2
+      exact ⟨_, List.mem_append_right _ (List.mem_map.mpr ⟨d, hd, rfl⟩), rfl, rfl, rfl, rfl⟩
+
+/-! ### `_insert_entries` as a fold -/
+
+def entryStep (c : Ctx) (db : Db) (e : Entry) : R Db := do
+  let lem ← need "KeyError: lemma" e.lemma
+  if (entryRow db e.id c.lexid).isSome then throw "UNIQUE entries(id, lexicon_rowid)"
+  let row : REntry := {rowid := nextId (db.entries.map (·.rowid)), id := e.id, lex := c.lexid, pos := lem.pos, md := e.md}
+  return { db with entries := db.entries ++ [row] }
+
+theorem insertEntries_eq (db : Db) (l : Lexicon) (c : Ctx) :
+    insertEntries db l c = (localEntries l).foldlM (entryStep c) db := by
+  unfold insertEntries
+  rw [← forIn_foldlM]
+  simp only [entryStep, bind_assoc, bind_pure]
+  congr 1
+  funext e db
+  cases need "KeyError: lemma" e.lemma with
+  | error x => rfl
+  | ok lem =>
+    simp only [bind, Except.bind]
+    split <;> rfl
+
+/-- element-wise relation between two lists of the same length -/
+inductive Forall2 {α β} (R : α → β → Prop) : List α → List β → Prop
+  | nil : Forall2 R [] []
+  | cons {a b l l'} : R a b → Forall2 R l l' → Forall2 R (a :: l) (b :: l')
+
+/-- the row written for a document entry -/
+def EntryRowOf (c : Ctx) (e : Entry) (r : REntry) : Prop :=
+  r.id = e.id ∧ r.lex = c.lexid ∧ r.md = e.md ∧ ∃ lem, e.lemma = some lem ∧ r.pos = lem.pos
+
+theorem entryStep_ok (c : Ctx) (db db1 : Db) (e : Entry) (h : entryStep c db e = .ok db1) :
+    ∃ r, db1 = { db with entries := db.entries ++ [r] } ∧ EntryRowOf c e r ∧ r.rowid ∉ db.entries.map (·.rowid) ∧
+      entryRow db e.id c.lexid = none := by
+  unfold entryStep at h
+  cases hl : e.lemma with
+  | none => simp [hl, need, bind, Except.bind] at h
+  | some lem =>
+    simp only [hl, need, bind, Except.bind] at h
+    split at h
+    · simp [throw, throwThe, MonadExcept.throw] at h
+    · rename_i hnot
+      simp only [pure, Except.pure, Except.ok.injEq] at h
+      refine ⟨_, h.symm, ⟨rfl, rfl, rfl, lem, hl, rfl⟩, nextId_fresh _, ?_⟩
+      cases hx : entryRow db e.id c.lexid with
+      | none => rfl
+      | some _ => simp [hx] at hnot
+
+/-- `_insert_entries`: one row per non-external entry, in document order, with the entry's id,
+the lemma's part of speech and the entry's metadata, owned by the new lexicon; nothing else in the
+database changes; rowids are fresh -/
+theorem C01_entries_rows (db db' : Db) (l : Lexicon) (c : Ctx) (h : insertEntries db l c = .ok db') :
+    ∃ rows, db' = { db with entries := db.entries ++ rows } ∧ Forall2 (EntryRowOf c) (localEntries l) rows := by
+  rw [insertEntries_eq] at h
+  revert h
+  generalize localEntries l = es
+  intro h
+  refine foldlM_ok_induct (entryStep c)
+    (fun es db db' => ∃ rows, db' = { db with entries := db.entries ++ rows } ∧ Forall2 (EntryRowOf c) es rows)
+    ?_ ?_ es db db' h
+  · intro b; exact ⟨[], by simp, Forall2.nil⟩
+  · intro a t b b1 b' hf _ ih
+    obtain ⟨r, hb1, hr, _, _⟩ := entryStep_ok c b b1 a hf
+    obtain ⟨rows, hb', hrows⟩ := ih
+    refine ⟨r :: rows, ?_, Forall2.cons hr hrows⟩
+    rw [hb', hb1]
+    simp
+
+/-- entry ids stay unique within the lexicon: a repeated id makes the whole add fail -/
+theorem C01_duplicate_entry_id_rejected (c : Ctx) (db : Db) (e : Entry) (k : Nat) (h : entryRow db e.id c.lexid = some k) :
+    ∃ m, entryStep c db e = .error m := by
+  unfold entryStep
+  cases hl : e.lemma with
+  | none => exact ⟨_, by simp [need, bind, Except.bind]; rfl⟩
+  | some lem =>
+    simp only [need, bind, Except.bind, h]
+    exact ⟨_, rfl⟩
+
+/-! ### what `find_entries` decodes -/
+
+/-- every word reported for a selection is an entry row of a selected lexicon, with that row's
+id and part of speech and with exactly the form rows stored for it, ordered by rank -/
+theorem C01_words_decode (db : Db) (lexids : List Nat) (w : WordData)
+    (h : w ∈ findEntries db none [] none lexids false true) :
+    ∃ e ∈ db.entries, w.rowid = e.rowid ∧ w.id = e.id ∧ w.pos = e.pos ∧ w.lex = e.lex ∧
+      w.forms = (sortBy (·.rank) (db.forms.filter (fun f => f.entry == e.rowid))).map (fun f => ⟨f.form, f.id, f.script, f.rowid⟩) := by
+  unfold findEntries at h
+  simp only [List.mem_filterMap] at h
+  obtain ⟨e, he, hw⟩ := h
+  rw [mem_sortBy] at he
+  simp only [List.mem_filter] at he
+  split at hw
+  · simp at hw
+  · simp at hw; subst hw
+    exact ⟨e, he.1, rfl, rfl, rfl, rfl, rfl⟩
+
+/-- nothing absent from the store is reported, and every entry row of a selected lexicon that
+has at least one form is reported -/
+theorem C01_words_complete (db : Db) (lexids : List Nat) (e : REntry) (he : e ∈ db.entries)
+    (hl : inLexOrAll lexids e.lex = true) (hf : ∃ f ∈ db.forms, f.entry = e.rowid) :
+    ∃ w ∈ findEntries db none [] none lexids false true, w.rowid = e.rowid ∧ w.id = e.id ∧ w.pos = e.pos := by
+  unfold findEntries
+  simp only [List.mem_filterMap]
+  refine ⟨{ id := e.id, pos := e.pos, forms := (sortBy (·.rank) (db.forms.filter (fun f => f.entry == e.rowid))).map (fun f => ⟨f.form, f.id, f.script, f.rowid⟩), lex := e.lex, rowid := e.rowid }, ⟨e, ?_, ?_⟩, rfl, rfl, rfl⟩
+  · rw [mem_sortBy]
+    simp only [List.mem_filter]
+    exact ⟨he, by simp [hl]⟩
+  · obtain ⟨f, hf1, hf2⟩ := hf
+    have : (sortBy (·.rank) (db.forms.filter (fun f => f.entry == e.rowid))).isEmpty = false := by
+      cases hh : sortBy (·.rank) (db.forms.filter (fun f => f.entry == e.rowid)) with
+      | nil =>
+        have : f ∈ sortBy (·.rank) (db.forms.filter (fun f => f.entry == e.rowid)) := by
+          rw [mem_sortBy]; simp [hf1, hf2]
+        rw [hh] at this; simp at this
+      | cons _ _ => rfl
+    simp [this]
+
 end WnVerif.Props.C01
